@@ -458,7 +458,8 @@ Proof.
   { unfold qualify. rewrite nth_error_map, Hn. reflexivity. }
   assert (Hd : forall m, decoder (err_shape iface vs) m (JObj ms) = Some (RVar i [])).
   { intros m. unfold err_shape.
-    apply (no_parameters_spellings m "error" "parameters" (qualify iface vs) ms _ i fs); try assumption.
+    apply (no_parameters_spellings m "error" "parameters" (qualify iface vs) ms
+             (iface ++ "." ++ vn)%string i fs); try assumption.
     apply str_neq. reflexivity. }
   split; [apply Hd |]. intros Hvs. now rewrite classify_unfold, Hvs, (Hd Ref).
 Qed.
